@@ -190,13 +190,20 @@ def worker2(k, queue, outq):
         outq.put(r2)
 
 
-def stage2(jobs, sample, seed, files):
+def stage2(jobs, sample, seed, files, perfile=0):
     s1 = done_ids(os.path.join(OUT, 'stage1.jsonl'))
     path = os.path.join(OUT, 'stage2.jsonl')
     done = done_ids(path)
     surv = [r for r in s1.values() if r['survives'] and r['id'] not in done and (not files or any(fnmatch.fnmatch(r['file'], f) for f in files))]
     surv.sort(key=lambda r: r['id'])
     random.Random(seed).shuffle(surv)
+    if perfile:
+        cnt, keep = {}, []
+        for r in surv:
+            if cnt.get(r['file'], 0) < perfile:
+                cnt[r['file']] = cnt.get(r['file'], 0) + 1
+                keep.append(r)
+        surv = keep
     if sample:
         surv = surv[:sample]
     print(f'{len(surv)} survivors to check', flush=True)
@@ -231,7 +238,8 @@ def main():
     else:
         sample = int(a[a.index('--sample') + 1]) if '--sample' in a else 0
         seed = int(a[a.index('--seed') + 1]) if '--seed' in a else 0
-        stage2(jobs, sample, seed, files)
+        perfile = int(a[a.index('--perfile') + 1]) if '--perfile' in a else 0
+        stage2(jobs, sample, seed, files, perfile)
 
 
 if __name__ == '__main__':
